@@ -1,17 +1,7 @@
-; harness ListingWhileCreating assert L3-listed-iff-requested-matching-and-permitted expected unsat
+; harness ListingAtStartUp assert L3-listed-iff-requested-matching-and-permitted expected unsat
 (set-logic ALL)
 (declare-const perm_Wallet1_acc1 Bool)
 (assert perm_Wallet1_acc1)
-(declare-const perm_Wallet1_acc2 Bool)
-(assert perm_Wallet1_acc2)
-(declare-const perm_Wallet1_acc9 Bool)
-(assert perm_Wallet1_acc9)
-(assert perm_Wallet1_acc1)
-(assert perm_Wallet1_acc2)
-(assert perm_Wallet1_acc9)
-(declare-const perm_Wallet1_acc8 Bool)
-(assert perm_Wallet1_acc8)
-(assert perm_Wallet1_acc1)
-(define-fun t222 () Bool (not perm_Wallet1_acc2))
-(assert t222)
+(define-fun t398 () Bool (not perm_Wallet1_acc1))
+(assert t398)
 (check-sat)
